@@ -160,9 +160,11 @@ func cmdCheck(args []string) {
 		*scratch = d
 		defer os.RemoveAll(d)
 	}
-	timeout := 20 * time.Second
+	// generous per-obligation budgets: on the pinned tree every claimed obligation discharges in a
+	// few seconds; the slack is for a loaded machine (a timeout must never become a false alarm)
+	timeout := 60 * time.Second
 	if *tier == "thorough" {
-		timeout = 90 * time.Second
+		timeout = 180 * time.Second
 	}
 	cfg := &SolverCfg{quickTimeout: timeout, scratch: *scratch, parallel: 16, seed: *seed, thorough: *tier == "thorough"}
 
